@@ -7,7 +7,7 @@ CONSTANTS
   MaxSteps = 0
   Modes = {"normal", "coro"}
   Typed = FALSE
-  Ops = {"ConstructEmpty", "ConstructH", "ConstructSelf", "MoveConstruct", "AddHandle", "AddSelf", "AddFill", "MergeShl", "MoveAssign", "Pop", "Clear", "Destroy", "CoAwait", "Pause", "Yield"}
+  Ops = {"ConstructEmpty", "ConstructH", "ConstructSelf", "MoveConstruct", "AddHandle", "AddSelf", "AddFill", "MergeShl", "MoveAssign", "Pop", "Clear", "Destroy", "CoAwait", "Pause", "Yield", "ParResume", "CreateSP"}
   Fixed = TRUE
   Targets = {}
 INVARIANTS TypeOK RepOK NoDoubleResume Conservation NoLeak
